@@ -122,6 +122,9 @@ def _build(events, partial):
                 j0 += 1
         elif k0 == "lookup_out":
             raise TraceError("event %d: lookup_out without lookup_in" % j0)
+        elif k0 in ("window_set", "window_take", "window_reset"):
+            # hook lowerer-window (C04's): the Lowerer's `self.window` bookkeeping; carries no identifier state
+            j0 += 1
         elif k0 == "selected_all":
             reads.append((j0, "(BSelectedAll %s %s %s)" % (_l([str(c) for c in d0["within"]]), _l([str(c) for c in d0["except"]]), _l([str(c) for c in d0["out"]]))))
             j0 += 1
